@@ -26,8 +26,10 @@ type Extra struct {
 func (w *World) extraChecks(id string, opts *RunOpts) *Extra {
 	ex := &Extra{Coverage: map[string]interface{}{}}
 	w.witnessFindings(id, opts, ex)
-	if id == "C14" || id == "C01" {
-		// C01: an identifier that is not a valid Go identifier does not compile
+	if id == "C14" || id == "C01" || (id >= "C02" && id <= "C09") || id == "C17" || id == "C19" {
+		// C01: an identifier that is not a valid Go identifier does not compile;
+		// C02..C09, C17, C19: a field that is not exported is never filled in by the
+		// decoders, so every check on it sees the zero value
 		w.boundedC14(id, opts, ex)
 	}
 	w.callOrder(id, opts, ex)
